@@ -97,6 +97,16 @@ theorem c14_u32_v4_dst (ip src dst : BitVec 32) (n : Nat) (hn : n ≤ 32) :
   · intro h
     exact ⟨dst, by simp, (matches_iff ip dst n hn 16).mpr h⟩
 
+/-- **A filter found installed and kept classifies exactly the CIDR it is kept for**: `setupFilters` keeps an installed filter
+    only when its key is the rule's own, so what the kept filter matches is the destination's membership in `ip/n` -/
+theorem c14_kept_filter_exact (ip ip' src dst : BitVec 32) (n n' : Nat) (hn : n ≤ 32) (hk : keepsInstalled ip n ip' n' = true) :
+    keyMatchesPkt4 (u32v4Dst ip' n') src dst ↔ PrefixEq32 dst ip n := by
+  unfold keepsInstalled at hk
+  rw [of_decide_eq_true hk]
+  exact c14_u32_v4_dst ip src dst n hn
+
+example : keepsInstalled 0xa9fe0000#32 16 0xa9fe0000#32 16 = true ∧ keepsInstalled 0xa9fe0000#32 24 0xa9fe0000#32 16 = false := by decide
+
 theorem mask32_zero_matches (n : Nat) (h : mask32 n = 0#32) (a ip : BitVec 32) :
     a &&& mask32 n = ip &&& mask32 n := by simp [h]
 
